@@ -8,6 +8,8 @@ import (
 	"testing"
 	"time"
 
+	"google.golang.org/grpc/codes"
+	"google.golang.org/grpc/status"
 	"google.golang.org/protobuf/proto"
 	"google.golang.org/protobuf/types/known/durationpb"
 	"pgregory.net/rapid"
@@ -75,7 +77,16 @@ func TestLightFadeInterrupted(t *testing.T) {
 			t.Fatalf("starting the fade: %v (%s)", err, desc)
 		}
 		time.Sleep(wait)
-		resp, err := client.UpdateBrightness(ctx, &traits.UpdateBrightnessRequest{Name: deviceName, Delta: delta, Brightness: &traits.Brightness{LevelPercent: plain}})
+		var resp *traits.Brightness
+		for attempt := 0; ; attempt++ {
+			resp, err = client.UpdateBrightness(ctx, &traits.UpdateBrightnessRequest{Name: deviceName, Delta: delta, Brightness: &traits.Brightness{LevelPercent: plain}})
+			if status.Code(err) == codes.Aborted && attempt < 20 {
+				// the update lost a race against one of the fade's own writes: an error status, nothing changed, the client tries again
+				lib.Ev.Class("plain update lost a race against a fade tick (Aborted), retried")
+				continue
+			}
+			break
+		}
 		if err != nil {
 			t.Fatalf("plain update: %v (%s)", err, desc)
 		}
